@@ -648,32 +648,36 @@ theorem curve_intersects_ray_fin (solve : T4 XQ XQ XQ XQ → List XQ) (w1 w2 w3 
   · apply foldlT_inv (fun res : List (T3 XQ XQ Pt) => ∀ h ∈ res, HitFin h)
     · simp [res0]
     · intro res root hres
-      extract_lets r0 t0 t1 t pos x y s res1 res2
-      clear_value t
-      simp only [res2]
-      split_ifs with hrange
-      · simp only [Bool.and_eq_true, decide_eq_true_eq] at hrange
-        have ht : Fin t := fin_of_le_of_le fin_zero_lit fin_one_lit hrange.1 hrange.2
-        have hpos : V2.Fin pos := (eval_fin t w1 w2 w3 w4 ht h1 h2 h3 h4).2.1
-        obtain ⟨hpx, hpy⟩ := hpos
-        have hs : Fin s := by
-          simp only [s, decide_eq_true_eq]
-          split_ifs with hba
-          · have hne : val (p2.x - p1.x) ≠ 0 := by
-              have hb0 := abs_gt_ne hb ha hba
-              simp only [b, p1, p2] at hb0 ⊢
-              rw [val_sub hl0x hl1x] at hb0; rw [val_sub hl1x hl0x]
-              intro h0; apply hb0; linarith
-            exact fin_div (by simp only [x, p1]; xq_fin) (by simp only [p1, p2]; xq_fin) hne
-          · have hne : val (p2.y - p1.y) ≠ 0 := abs_not_gt_ne hb ha hba (by rwa [Bool.and_comm] at hz)
-            exact fin_div (by simp only [y, p1]; xq_fin) (by simp only [p1, p2]; xq_fin) hne
-        intro h hh
-        simp only [res1, List.mem_append, List.mem_singleton] at hh
-        rcases hh with hh | hh
-        · exact hres h hh
-        · subst hh
-          exact ⟨ht, hs, hpx, hpy⟩
-      · exact hres
+      extract_lets +onlyGivenNames r0 t0
+      by_cases hwin : (!(decide (t0 > -(0.1 : XQ)) && decide (t0 < (1.1 : XQ)))) = true
+      · rw [if_pos hwin]; exact hres
+      · rw [if_neg hwin]
+        extract_lets t1 t pos x y s res1 res2
+        clear_value t
+        simp only [res2]
+        split_ifs with hrange
+        · simp only [Bool.and_eq_true, decide_eq_true_eq] at hrange
+          have ht : Fin t := fin_of_le_of_le fin_zero_lit fin_one_lit hrange.1 hrange.2
+          have hpos : V2.Fin pos := (eval_fin t w1 w2 w3 w4 ht h1 h2 h3 h4).2.1
+          obtain ⟨hpx, hpy⟩ := hpos
+          have hs : Fin s := by
+            simp only [s, decide_eq_true_eq]
+            split_ifs with hba
+            · have hne : val (p2.x - p1.x) ≠ 0 := by
+                have hb0 := abs_gt_ne hb ha hba
+                simp only [b, p1, p2] at hb0 ⊢
+                rw [val_sub hl0x hl1x] at hb0; rw [val_sub hl1x hl0x]
+                intro h0; apply hb0; linarith
+              exact fin_div (by simp only [x, p1]; xq_fin) (by simp only [p1, p2]; xq_fin) hne
+            · have hne : val (p2.y - p1.y) ≠ 0 := abs_not_gt_ne hb ha hba (by rwa [Bool.and_comm] at hz)
+              exact fin_div (by simp only [y, p1]; xq_fin) (by simp only [p1, p2]; xq_fin) hne
+          intro h hh
+          simp only [res1, List.mem_append, List.mem_singleton] at hh
+          rcases hh with hh | hh
+          · exact hres h hh
+          · subst hh
+            exact ⟨ht, hs, hpx, hpy⟩
+        · exact hres
 
 example : ∀ h ∈ curve_intersects_ray (fun _ => [nan, pinf, fin 0]) pt5 pt5 pt5 pt5 pointLine, HitFin h :=
   curve_intersects_ray_fin _ _ _ _ _ _ ctl5 pointLine_fin
